@@ -4,7 +4,9 @@ import (
 	"fmt"
 	"go/token"
 	"go/types"
+	"os"
 	"sort"
+	"strconv"
 	"strings"
 
 	"golang.org/x/tools/go/ssa"
@@ -182,10 +184,18 @@ func (m *Machine) unsupported(what string) abortSig {
 
 func (m *Machine) where() string {
 	if m.cur != nil && m.cur.fr != nil {
-		return strings.Join(m.stackOf(m.cur.fr, 6), " <- ")
+		return strings.Join(m.stackOf(m.cur.fr, whereDepth), " <- ")
 	}
 	return "?"
 }
+
+// whereDepth: frames shown in unsupported/truncated messages (VERIF_STACK overrides, for debugging)
+var whereDepth = func() int {
+	if n, err := strconv.Atoi(os.Getenv("VERIF_STACK")); err == nil && n > 0 {
+		return n
+	}
+	return 6
+}()
 
 func (m *Machine) stackOf(fr *Frame, max int) []string {
 	var out []string
@@ -791,8 +801,12 @@ func (m *Machine) ensureInit(pkg *ssa.Package, fr *Frame) {
 		m.globals[g] = cell
 	}
 	m.runningInit[pkg] = true
+	s0 := m.steps
 	m.callSSA(fr, token.NoPos, init, nil, nil)
 	m.runningInit[pkg] = false
+	if m.Opt.Trace || m.Cfg != nil && m.Cfg.ProfileInit {
+		m.res.Notes["init-steps:"+path] += m.steps - s0
+	}
 }
 
 // packages whose initialisers are not interpreted (their globals stay zero; every use must hit a stub)
@@ -809,7 +823,7 @@ var denyPrefixes = []string{
 	"github.com/json-iterator", "golang.org/x/sys", "golang.org/x/net", "golang.org/x/crypto", "golang.org/x/text",
 	"github.com/btcsuite", "github.com/decred", "github.com/zeebo", "github.com/klauspost", "github.com/cloudwego",
 	"github.com/twitchyliquid64", "github.com/oklog", "github.com/gofrs", "github.com/alicebob", "go.uber.org",
-	"github.com/stretchr", "github.com/google", "github.com/golang",
+	"github.com/stretchr", "github.com/google", "github.com/golang", "github.com/syndtr",
 }
 
 func (p *Program) denyInitPrefix(path string) bool {
